@@ -63,23 +63,35 @@ def validate_records(res, prop, recfile, tag, nrec):
     """B2: TLC judges observation records against the property-level relations."""
     if nrec == 0:
         return {}
-    st = tlc('Val_Hunks', cfg_body=VAL_CFG, env={'RQ_RECORDS': recfile}, tag='val-' + tag, workers=8)
-    res.add_tlc(st, 'Val_Hunks/' + tag)
-    recs = {}
+    # in chunks: a chunk finishes well inside the TLC time limit also on a loaded machine
+    CH = 40000
+    recs, chunk_files = {}, []
     with open(recfile) as f:
-        for line in f:
-            r = json.loads(line)
-            recs[r['id']] = r
+        lines = f.readlines()
+    for r in map(json.loads, lines):
+        recs[r['id']] = r
     counts = {'judged': 0}
-    for v in tlc_json_lines(st['out']):
-        counts['judged'] += 1
-        for key in OWN[prop]['verdict']:
-            if not v[key]:
-                r = recs.get(v['id'], {})
-                what = {'c02': 'hunk report breaks the placement rules (nearest match / anchoring / lowest fuzz)',
-                        'c03': 'patched content is not the reconstruction from the hunk reports' +
-                               (' (apply aborted)' if r.get('out') == ['PANIC'] else '')}[key]
-                res.violation(key + ':' + r.get('why', ''), what, r)
+    for c0 in range(0, len(lines), CH):
+        cf = recfile + '.%d' % c0
+        with open(cf, 'w') as f:
+            f.writelines(lines[c0:c0 + CH])
+        st = tlc('Val_Hunks', cfg_body=VAL_CFG, env={'RQ_RECORDS': cf}, tag='val-' + tag, workers=8, timeout=2400)
+        if c0 == 0:
+            res.add_tlc(st, 'Val_Hunks/' + tag)
+        else:
+            res.cov['states'] += st['distinct']; res.cov['transitions'] += st['states']
+            for k in ('states', 'distinct', 'wall_s'):
+                res.cov['parts']['Val_Hunks/' + tag][k] = round(res.cov['parts']['Val_Hunks/' + tag][k] + st[k], 1)
+        for v in tlc_json_lines(st['out']):
+            counts['judged'] += 1
+            for key in OWN[prop]['verdict']:
+                if not v[key]:
+                    r = recs.get(v['id'], {})
+                    what = {'c02': 'hunk report breaks the placement rules (nearest match / anchoring / lowest fuzz)',
+                            'c03': 'patched content is not the reconstruction from the hunk reports' +
+                                   (' (apply aborted)' if r.get('out') == ['PANIC'] else '')}[key]
+                    res.violation(key + ':' + r.get('why', ''), what, r)
+        os.unlink(cf)
     if counts['judged'] != nrec:
         raise ToolError('Val_Hunks judged %d of %d records' % (counts['judged'], nrec))
     res.cov['traces_validated_against_impl'] += nrec
@@ -194,8 +206,9 @@ def run_textfuzz(res, prop, tier, work):
                 for lim in (0, 1, 2):
                     jobs.append({'id': len(jobs), 'a': render.file_bytes(F, 0).hex(), 'patch': patch.hex(), 'strip': 1, 'reverse': False, 'fuzz': lim})
                     recs.append({'F': F, 'hs': plain, 'lim': lim})
-    if tier == 'quick' and len(jobs) > 60000:
-        keep = sorted(rnd.sample(range(len(jobs)), 60000))
+    cap = 60000 if tier == 'quick' else 600000
+    if len(jobs) > cap:
+        keep = sorted(rnd.sample(range(len(jobs)), cap))
         jobs = [dict(jobs[i], id=k) for k, i in enumerate(keep)]; recs = [recs[i] for i in keep]
     inp = '\n'.join(json.dumps(j) for j in jobs) + '\n'
     obs = {}
